@@ -35,7 +35,7 @@ Proof.
   replace (Nat.min i (length b)) with i by lia.
   rewrite (skipn_all2 (firstn i b)) by (rewrite firstn_length; lia).
   cbn [app]. destruct (s - i)%nat as [|k] eqn:E; [lia|].
-  cbn [skipn]. rewrite skipn_skipn'. f_equal. lia.
+  rewrite skipn_cons. rewrite skipn_skipn'. f_equal. lia.
 Qed.
 
 Lemma skipn_cons_inv {A} (l : list A) : forall s c rest,
@@ -134,7 +134,7 @@ Proof.
     + subst c. destruct t' as [|d t'']; [discriminate|].
       inversion Hnz' as [|? ? Hd Hnz'']; subst.
       cbn [app]. rewrite (rd_ok _ _ d) by apply nth_error_mid1. cbn [bind].
-      assert (Hlen : (length w < length (w ++ g ++ 126 :: d :: t'' ++ [0]))%nat)
+      assert (Hlen : (length w < length (w ++ g ++ 126%Z :: d :: t'' ++ [0%Z]))%nat)
         by (rewrite !app_length; cbn [length]; lia).
       destruct (g ++ [126; d]) as [|x g2] eqn:EG; [destruct g; discriminate|].
       assert (Hg2 : length g2 = S (length g)).
@@ -160,7 +160,7 @@ Proof.
         replace (w ++ 47 :: g2 ++ t'' ++ [0]) with ((w ++ [47]) ++ g2 ++ t'' ++ [0]) by (rewrite <- app_assoc; reflexivity).
         rewrite Ht. exists tail. rewrite <- app_assoc. reflexivity.
     + destruct (unescape t') as [u'|] eqn:U; [|discriminate]. cbn [option_map] in Hu. inversion Hu; subst u.
-      assert (Hlen : (length w < length (w ++ g ++ c :: t' ++ [0]))%nat)
+      assert (Hlen : (length w < length (w ++ g ++ c :: t' ++ [0%Z]))%nat)
         by (rewrite !app_length; cbn [length]; lia).
       rewrite wr_ok by exact Hlen. cbn [bind].
       destruct (g ++ [c]) as [|x g2] eqn:EG; [destruct g; discriminate|].
@@ -186,12 +186,12 @@ Proof.
     + destruct t' as [|d t'']; [discriminate|]. inversion Hnz' as [|? ? Hd Hnz'']; subst.
       zeq d 48.
       * destruct (unescape t'') as [u'|] eqn:U; [|discriminate]. inversion Hu; subst.
-        constructor; [discriminate|]. apply (IH t''); [unfold ltof; cbn; lia | reflexivity | assumption].
+        constructor; [discriminate|]. apply (IH t''); [unfold ltof; cbn; lia | exact U | assumption].
       * zeq d 49; [|discriminate].
         destruct (unescape t'') as [u'|] eqn:U; [|discriminate]. inversion Hu; subst.
-        constructor; [discriminate|]. apply (IH t''); [unfold ltof; cbn; lia | reflexivity | assumption].
+        constructor; [discriminate|]. apply (IH t''); [unfold ltof; cbn; lia | exact U | assumption].
     + destruct (unescape t') as [u'|] eqn:U; [|discriminate]. inversion Hu; subst.
-      constructor; [assumption|]. apply (IH t'); [unfold ltof; cbn; lia | reflexivity | assumption].
+      constructor; [assumption|]. apply (IH t'); [unfold ltof; cbn; lia | exact U | assumption].
 Qed.
 
 Lemma cstr_app_zero (u : bytes) tail : Forall (fun c => c <> 0) u -> cstr (u ++ 0 :: tail) = u.
@@ -215,4 +215,229 @@ Proof.
   { rewrite app_length. cbn. lia. }
   cbn [app length Nat.add] in Ht. rewrite Ht in Hb. inversion Hb; subst b.
   apply cstr_app_zero. eapply unescape_nz; eassumption.
+Qed.
+
+(** ---------- termination bookkeeping ---------- *)
+Definition terminates {A} (r : res A) : Prop := r <> OutOfFuel.
+Lemma term_ok {A} (a : A) : terminates (Ok a).
+Proof. discriminate. Qed.
+Lemma term_oob {A} : terminates (@OOB A).
+Proof. discriminate. Qed.
+Lemma bind_term {A B} (m : res A) (f : A -> res B) :
+  terminates m -> (forall a, m = Ok a -> terminates (f a)) -> terminates (bind m f).
+Proof.
+  intros Hm Hf. destruct m as [a| |]; cbn [bind].
+  - apply Hf. reflexivity.
+  - discriminate.
+  - exfalso. apply Hm. reflexivity.
+Qed.
+
+(** ---------- sort_list: total with the fuel sort_object supplies; a permutation ---------- *)
+Lemma merge_nil_l cs b : merge cs [] b = b.
+Proof. destruct b; reflexivity. Qed.
+Lemma merge_nil_r cs a : merge cs a [] = a.
+Proof. destruct a; reflexivity. Qed.
+Lemma merge_cons cs x a y b :
+  merge cs (x :: a) (y :: b) =
+  if compare_strings (n_key x) (n_key y) cs <=? 0 then x :: merge cs a (y :: b) else y :: merge cs (x :: a) b.
+Proof. reflexivity. Qed.
+
+Lemma merge_perm cs : forall a b, Permutation (a ++ b) (merge cs a b).
+Proof.
+  induction a as [|x a IHa]; intro b.
+  - rewrite merge_nil_l. apply Permutation_refl.
+  - induction b as [|y b IHb].
+    + rewrite merge_nil_r, app_nil_r. apply Permutation_refl.
+    + rewrite merge_cons. destruct (compare_strings (n_key x) (n_key y) cs <=? 0).
+      * cbn [app]. apply perm_skip. apply IHa.
+      * eapply Permutation_trans; [apply Permutation_sym, Permutation_middle|].
+        apply perm_skip. apply IHb.
+Qed.
+
+Lemma sort_list_ok : forall fuel l cs, (length l < fuel)%nat ->
+  exists r, sort_list fuel l cs = Ok r /\ Permutation l r.
+Proof.
+  induction fuel as [|f IH]; intros l cs Hf; [lia|].
+  destruct l as [|x [|y l']].
+  - exists []. split; [reflexivity | apply Permutation_refl].
+  - exists [x]. split; [reflexivity | apply Permutation_refl].
+  - remember (x :: y :: l') as l eqn:El.
+    assert (Hs : sort_list (S f) l cs =
+                 if strictly_sorted l cs then Ok l
+                 else a <- sort_list f (firstn (Nat.div2 (S (length l))) l) cs ;;
+                      b <- sort_list f (skipn (Nat.div2 (S (length l))) l) cs ;; Ok (merge cs a b)).
+    { subst l. reflexivity. }
+    rewrite Hs. destruct (strictly_sorted l cs).
+    + exists l. split; [reflexivity | apply Permutation_refl].
+    + set (k := Nat.div2 (S (length l))).
+      assert (Hk : (1 <= k < length l)%nat).
+      { unfold k. subst l. cbn [length].
+        change (Nat.div2 (S (S (S (length l'))))) with (S (Nat.div2 (S (length l')))).
+        pose proof (Nat.lt_div2 (S (length l'))) as H. lia. }
+      destruct (IH (firstn k l) cs) as (a & Ha & Pa). { rewrite firstn_length. lia. }
+      destruct (IH (skipn k l) cs) as (b & Hb & Pb). { rewrite skipn_length. lia. }
+      rewrite Ha. cbn [bind]. rewrite Hb. cbn [bind].
+      exists (merge cs a b). split; [reflexivity|].
+      eapply Permutation_trans; [|apply merge_perm].
+      rewrite <- (firstn_skipn k l) at 1. apply Permutation_app; assumption.
+Qed.
+
+Lemma sort_object_ok n cs :
+  exists r, sort_object n cs = Ok (set_children n r) /\ Permutation (n_children n) r.
+Proof.
+  unfold sort_object. destruct (sort_list_ok (S (length (n_children n))) (n_children n) cs) as (r & Hr & P); [lia|].
+  rewrite Hr. exists r. split; [reflexivity | exact P].
+Qed.
+
+(** ---------- depth of children ---------- *)
+Fixpoint depth_list (l : list node) : nat :=
+  match l with [] => O | c :: r => Nat.max (node_depth c) (depth_list r) end.
+Lemma node_depth_eq t s i d k cs : node_depth (Node t s i d k cs) = S (depth_list cs).
+Proof.
+  reflexivity.
+Qed.
+Lemma depth_list_in x cs : In x cs -> (node_depth x <= depth_list cs)%nat.
+Proof.
+  induction cs as [|c r IH]; intro H; [contradiction|]. cbn [depth_list].
+  destruct H as [->|H]; [lia|]. specialize (IH H). lia.
+Qed.
+Lemma depth_child n x : In x (n_children n) -> (node_depth x < node_depth n)%nat.
+Proof.
+  destruct n as [t s i d k cs]. cbn [n_children]. intro H. rewrite node_depth_eq.
+  pose proof (depth_list_in _ _ H). lia.
+Qed.
+Lemma n_children_set n cs : n_children (set_children n cs) = cs.
+Proof. destruct n; reflexivity. Qed.
+
+(** ---------- compare_json terminates with fuel = depth of its first operand ---------- *)
+Lemma cmp_arr_term rec : forall la lb,
+  (forall x y, In x la -> terminates (rec x y)) -> terminates (cmp_arr rec la lb).
+Proof.
+  induction la as [|x la IH]; intros lb H; destruct lb as [|y lb]; cbn [cmp_arr]; try apply term_ok.
+  apply bind_term; [apply H; left; reflexivity|].
+  intros [[r x'] y'] _. destruct r; [|apply term_ok].
+  apply bind_term; [apply IH; intros; apply H; right; assumption|].
+  intros [[r2 la2] lb2] _. apply term_ok.
+Qed.
+
+Lemma cmp_obj_term rec cs : forall la lb,
+  (forall x y, In x la -> terminates (rec x y)) -> terminates (cmp_obj rec cs la lb).
+Proof.
+  induction la as [|x la IH]; intros lb H; destruct lb as [|y lb]; cbn [cmp_obj]; try apply term_ok.
+  destruct (negb (compare_strings (n_key x) (n_key y) cs =? 0)); [apply term_ok|].
+  apply bind_term; [apply H; left; reflexivity|].
+  intros [[r x'] y'] _. destruct r; [|apply term_ok].
+  apply bind_term; [apply IH; intros; apply H; right; assumption|].
+  intros [[r2 la2] lb2] _. apply term_ok.
+Qed.
+
+Lemma compare_json_total : forall fuel a b cs, (node_depth a <= fuel)%nat -> terminates (compare_json fuel a b cs).
+Proof.
+  induction fuel as [|f IH]; intros a b cs Hd.
+  - destruct a. rewrite node_depth_eq in Hd. lia.
+  - cbn [compare_json].
+    destruct (negb (tymask (n_ty a) =? tymask (n_ty b))); [apply term_ok|].
+    destruct (tymask (n_ty a) =? c_cJSON_Number); [apply term_ok|].
+    destruct (tymask (n_ty a) =? c_cJSON_String).
+    { destruct (n_vstr a); [destruct (n_vstr b)|]; first [apply term_ok | apply term_oob]. }
+    destruct (tymask (n_ty a) =? c_cJSON_Array).
+    { apply bind_term.
+      - apply cmp_arr_term. intros x y Hx. apply IH. pose proof (depth_child a x Hx). lia.
+      - intros [[r ca] cb] _. apply term_ok. }
+    destruct (tymask (n_ty a) =? c_cJSON_Object); [|apply term_ok].
+    destruct (sort_object_ok a cs) as (ra & Ha & Pa). destruct (sort_object_ok b cs) as (rb & Hb & Pb).
+    rewrite Ha. cbn [bind]. rewrite Hb. cbn [bind]. rewrite !n_children_set.
+    apply bind_term.
+    + apply cmp_obj_term. intros x y Hx. apply IH.
+      assert (In x (n_children a)) by (eapply Permutation_in; [apply Permutation_sym; exact Pa | exact Hx]).
+      pose proof (depth_child a x H). lia.
+    + intros [[r ca] cb] _. apply term_ok.
+Qed.
+
+(** ---------- apply_patch, apply_patches terminate: for EVERY document and EVERY patch value ---------- *)
+Lemma decode_term (t : bytes) (B : Type) (f : bytes -> res B) :
+  (forall b, terminates (f b)) -> terminates (bind (decode_pointer_inplace (t ++ [0])) f).
+Proof.
+  intro H. destruct (decode_pointer_inplace_safe t) as (b & Hb & _). rewrite Hb. cbn [bind]. apply H.
+Qed.
+
+Ltac term_leaf := first [apply term_ok | apply term_oob].
+
+Lemma detach_path_term object path cs : terminates (detach_path object path cs).
+Proof.
+  unfold detach_path.
+  destruct (last_slash path 0 None) as [i|]; [|term_leaf].
+  destruct (get_item_from_pointer object (firstn i path) cs) as [pp|]; [|term_leaf].
+  destruct (subtree object pp) as [par|]; [|term_leaf].
+  destruct (is_array par).
+  { destruct (decode_array_index_from_pointer (skipn (S i) path)) as [idx|]; [|term_leaf].
+    destruct (nth_z (n_children par) idx); term_leaf. }
+  destruct (is_object par); [|term_leaf].
+  apply decode_term. intro b.
+  destruct (get_object_item par (Some (cstr b)) cs) as [[j it]|]; term_leaf.
+Qed.
+
+Lemma finish_add_term object value pstr cs : terminates (finish_add object value pstr cs).
+Proof.
+  unfold finish_add. destruct pstr as [|c0 p0]; [term_leaf|].
+  destruct (last_slash (c0 :: p0) 0 None) as [i|]; [|term_leaf].
+  destruct (get_item_from_pointer object (firstn i (c0 :: p0)) cs) as [pp|]; [|term_leaf].
+  destruct (subtree object pp) as [par|]; [|term_leaf].
+  destruct (is_array par).
+  { destruct (strcmp (skipn (S i) (c0 :: p0)) s_dash =? 0); [term_leaf|].
+    destruct (decode_array_index_from_pointer (skipn (S i) (c0 :: p0))) as [idx|]; [|term_leaf].
+    destruct (idx >? Z.of_nat (length (n_children par))); term_leaf. }
+  destruct (is_object par); [|term_leaf].
+  apply decode_term. intro b. term_leaf.
+Qed.
+
+Lemma decode_patch_operation_term patch cs : terminates (decode_patch_operation patch cs).
+Proof.
+  unfold decode_patch_operation.
+  destruct (get_object_item patch (Some s_op) cs) as [[j operation]|]; [|term_leaf].
+  destruct (negb (is_string operation)); [term_leaf|].
+  destruct (n_vstr operation) as [s|]; [|term_leaf].
+  repeat match goal with |- terminates (if ?c then _ else _) => destruct c; [term_leaf|] end. term_leaf.
+Qed.
+
+Ltac term_step :=
+  match goal with
+  | |- terminates (Ok _) => apply term_ok
+  | |- terminates OOB => apply term_oob
+  | |- terminates (bind (detach_path _ _ _) _) => apply bind_term; [apply detach_path_term | intros ? _]
+  | |- terminates (bind (finish_add _ _ _ _) _) => apply bind_term; [apply finish_add_term | intros ? _]
+  | |- terminates (bind (Ok _) _) => cbn [bind]
+  | |- terminates (bind (if ?c then _ else _) _) => destruct c
+  | |- terminates (match ?x with _ => _ end) => destruct x
+  | |- terminates (if ?c then _ else _) => destruct c
+  end.
+
+Lemma apply_patch_term object patch cs : terminates (apply_patch object patch cs).
+Proof.
+  unfold apply_patch.
+  destruct (get_object_item patch (Some s_path) cs) as [[j pathn]|]; [|term_leaf].
+  destruct (negb (is_string pathn)); [term_leaf|].
+  apply bind_term; [apply decode_patch_operation_term|]. intros opc _.
+  destruct opc; try term_leaf.
+  all: try (destruct (n_vstr pathn) as [pstr|]; [|term_leaf]; cbn [andb orb]; repeat term_step).
+  (* TEST *)
+  destruct (match n_vstr pathn with Some p => get_item_from_pointer object p cs | None => None end) as [tp|]; [|term_leaf].
+  destruct (get_object_item patch (Some s_value) cs) as [[vi v]|]; [|term_leaf].
+  destruct (subtree object tp) as [a|]; [|term_leaf].
+  apply bind_term; [apply compare_json_total; lia|]. intros [[r a'] v'] _. term_leaf.
+Qed.
+
+Lemma apply_loop_term : forall ps object cs, terminates (apply_loop object ps cs).
+Proof.
+  induction ps as [|p r IH]; intros object cs; cbn [apply_loop]; [term_leaf|].
+  apply bind_term; [apply apply_patch_term|]. intros [[st o] p'] _.
+  destruct (negb (st =? 0)); [term_leaf|].
+  apply bind_term; [apply IH|]. intros [[st2 o2] r'] _. term_leaf.
+Qed.
+
+Theorem apply_patches_total object patches cs : apply_patches object patches cs <> OutOfFuel.
+Proof.
+  unfold apply_patches. destruct (negb (is_array patches)); [discriminate|].
+  apply (bind_term (apply_loop object (n_children patches) cs)); [apply apply_loop_term|].
+  intros [[st o] ps] _. term_leaf.
 Qed.
